@@ -336,7 +336,8 @@ func c07Cases() []c07Case {
 			return first(e2, eq("question name", qn, name), eq("destination (RFC 4795)", fmt.Sprintf("%v:%d", i.DstIP, i.DstPort), "224.0.0.252:5355"))
 		})
 	}
-	for _, name := range []string{"WORKSTATION1", "*", "A-NAME-LONGER-THAN-16-CHARS"} {
+	// (the last two names carry bytes >= 0x80: a name in an OEM code page, and the same name in UTF-8)
+	for _, name := range []string{"WORKSTATION1", "*", "A-NAME-LONGER-THAN-16-CHARS", "CAF\xc9", "CAF\u00c9-PC"} {
 		name := name
 		add("dns.SendNBNSQuery", []int{len(name)}, func(x *c07Objs) error {
 			return x.n.SendNBNSQuery(x.nic.HostAddr4, packet.Addr{MAC: env.MAC1, IP: c07IP4[0]}, name)
@@ -352,10 +353,11 @@ func c07Cases() []c07Case {
 			if b[12] != 0x20 || b[12+33] != 0 {
 				return "NBNS name is not a 32 byte first-level encoded label"
 			}
-			dec := ""
+			var decb []byte
 			for k := 0; k < 16; k++ {
-				dec += string(rune((b[13+2*k]-'A')<<4 | (b[14+2*k] - 'A')))
+				decb = append(decb, (b[13+2*k]-'A')<<4|(b[14+2*k]-'A'))
 			}
+			dec := string(decb)
 			want := name
 			if len(want) > 16 {
 				want = want[:15]
